@@ -9,6 +9,7 @@ mod interp;
 mod lattice;
 mod macros;
 mod monitor;
+mod refevm;
 mod testdb;
 mod props;
 
@@ -39,6 +40,8 @@ fn main() {
     if std::env::var("VERIF_PANIC").is_err() {
         silence_panics();
     }
+    // the reference EVM recurses once per call depth (up to 1025 frames)
+    let _ = rayon::ThreadPoolBuilder::new().stack_size(1 << 30).build_global();
     start_watchdog(prop.clone(), 30.0);
     let replay_path = args.iter().position(|a| a == "--replay").map(|i| args[i + 1].clone());
     let code = props::dispatch(&ctx, replay_path.as_deref());
